@@ -137,9 +137,16 @@ prop("C06",
      technique="explicit-state BFS over object-API programs (two slots per class: build, dup, ownership-correct mutators, del) with the allocator as the invariant: live heap after teardown == baseline, ASan double-free/use-after-free",
      rule="E1 per class and family: BFS over programs {s = build(state i), s' = dup(s), s.mutator_j (setters, done/re-init, remove*/to_array/iterator/get_keys.. with hand-back released by the program), del(s)} "
           "on two slots up to the depth bound; dedup by (observable value of both slots, bytes held); after every explored history the program deletes what it owns and the heap must equal its baseline; "
-          "non-trivial = distinct reachable (value, held-bytes) states",
-     bounds={"quick": "depth <= 4 per class (16 class/family systems)", "thorough": "depth <= 6"},
-     runs=[dict(name="h_own", sources=["harness/h_own.c"], profile="asan", args={"quick": ["--depth=4"], "thorough": ["--depth=6"]})],
+          "non-trivial = distinct reachable (value, held-bytes) states; in addition the complete str/ustr/mbuff operation histories of C01/C07 (every refused and every aliasing call included) are run with the same heap oracle",
+     bounds={"quick": "depth <= 4 per class (16 class/family systems); str/ustr/mbuff histories L=3 fixpoint", "thorough": "depth <= 6; str/ustr/mbuff histories L=4 fixpoint"},
+     runs=[dict(name="h_own", sources=["harness/h_own.c"], profile="asan", args={"quick": ["--depth=4"], "thorough": ["--depth=6"]}),
+           # the complete C01/C07 operation alphabets (refused operations and aliasing included) with the allocator as the oracle
+           dict(name="h_str_leak", sources=["harness/h_str.c"], profile="asan", wraps=["read"], cflags=["-DVERIF_LEAKRUN"],
+                args={"quick": ["--L=3", "--sigma=3", "--only=e1"], "thorough": ["--L=4", "--sigma=3", "--only=e1"]}),
+           dict(name="h_ustr_leak", sources=["harness/h_str.c"], profile="asan", wraps=["read"], cflags=["-DUSTR", "-DVERIF_LEAKRUN"],
+                args={"quick": ["--L=3", "--sigma=3", "--only=e1"], "thorough": ["--L=4", "--sigma=3", "--only=e1"]}),
+           dict(name="h_mbuff_leak", sources=["harness/h_mbuff.c"], profile="asan", wraps=["read"], cflags=["-DVERIF_LEAKRUN"],
+                args={"quick": ["--L=3", "--sigma=3", "--only=e1"], "thorough": ["--L=4", "--sigma=3", "--only=e1"]})],
      deadline={"quick": 240, "thorough": 3000})
 
 
